@@ -114,6 +114,15 @@ var tString = types.Typ[types.String]
 var tFloat64 = types.Typ[types.Float64]
 
 func (g *fgen) findPkgByName(from *types.Package, name string) *types.Package {
+	if strings.Contains(name, "/") {
+		// a path suffix disambiguates packages that share a name (vam/op vs sam/op)
+		for _, p := range g.w.allTPkg {
+			if strings.HasSuffix(p.Path(), "/"+name) {
+				return p
+			}
+		}
+		return nil
+	}
 	if from != nil {
 		for _, p := range from.Imports() {
 			if p.Name() == name {
@@ -1443,12 +1452,17 @@ func (e *cenv) specCall(sf *specFunc, args []val) val {
 				keys = append(keys, k)
 			}
 			sort.Strings(keys)
-			sig := ""
-			for _, k := range keys {
-				sig += k + "=" + g.read(e.st, k) + ";"
+			// The heap cells the body reads are explicit arguments of the function symbol
+			// (one array per heap key): two states with equal cells give equal values by
+			// congruence, so framing needs no lemma.
+			var hs, hb, hv []string
+			for i, k := range keys {
+				hs = append(hs, g.heapSort[k])
+				hb = append(hb, fmt.Sprintf("(h!%d %s)", i, g.heapSort[k]))
+				hv = append(hv, fmt.Sprintf("h!%d", i))
 			}
 			if len(keys) > 0 {
-				name = fmt.Sprintf("%s_s%x", name, hashString(sig))
+				name = fmt.Sprintf("%s_k%x", name, hashString(strings.Join(keys, ";")))
 			}
 			if !g.declared[name] {
 				g.declared[name] = true
@@ -1459,24 +1473,36 @@ func (e *cenv) specCall(sf *specFunc, args []val) val {
 					g.declared["sort:Fuel"] = true
 					g.emit("(declare-datatypes ((Fuel 0)) (((FZ) (FS (fpred Fuel)))))")
 				}
-				g.emit(fmt.Sprintf("(declare-fun %s (%s) %s)", name, strings.TrimSpace("Fuel "+strings.Join(ss, " ")), g.sortOf(rt)))
-				n := &cenv{g: g, st: e.st, old: e.old, vars: vars, pkg: pkg, nq: e.nq, depth: e.depth + 1, recSyms: map[string]string{}}
+				g.emit(fmt.Sprintf("(declare-fun %s (%s) %s)", name, strings.Join(append(append([]string{"Fuel"}, hs...), ss...), " "), g.sortOf(rt)))
+				// a pseudo-state in which every read key is a bound array variable
+				g.nepoch++
+				ps := &state{heap: map[string]string{}, epoch: g.nepoch, alloc: e.st.alloc}
+				g.epochs[ps.epoch] = &epochInfo{}
+				for i, k := range keys {
+					ps.heap[k] = hv[i]
+				}
+				n := &cenv{g: g, st: ps, old: ps, vars: vars, pkg: pkg, nq: e.nq, depth: e.depth + 1, recSyms: map[string]string{}}
 				for k, v := range e.recSyms {
 					n.recSyms[k] = v
 				}
-				n.recSyms[sf.name] = name + " f!fuel"
+				n.recSyms[sf.name] = strings.TrimSpace(name + " f!fuel " + strings.Join(hv, " "))
 				r := n.tr(sf.body)
 				var an []string
 				for _, p := range sf.params {
 					an = append(an, "a!"+p.name)
 				}
-				fb := append([]string{"(f!fuel Fuel)"}, bs...)
-				hi := strings.TrimSpace("(" + name + " (FS f!fuel) " + strings.Join(an, " ")) + ")"
-				lo := strings.TrimSpace("(" + name + " f!fuel " + strings.Join(an, " ")) + ")"
+				fb := append(append([]string{"(f!fuel Fuel)"}, hb...), bs...)
+				rest := strings.TrimSpace(strings.Join(hv, " ") + " " + strings.Join(an, " "))
+				hi := strings.TrimSpace("(" + name + " (FS f!fuel) " + rest) + ")"
+				lo := strings.TrimSpace("(" + name + " f!fuel " + rest) + ")"
 				g.emit(fmt.Sprintf("(assert (forall (%s) (! (= %s %s) :pattern (%s))))", strings.Join(fb, " "), hi, r.t, hi))
 				g.emit(fmt.Sprintf("(assert (forall (%s) (! (= %s %s) :pattern (%s))))", strings.Join(fb, " "), hi, lo, hi))
 			}
-			name = name + " (FS (FS FZ))"
+			var cur []string
+			for _, k := range keys {
+				cur = append(cur, g.read(e.st, k))
+			}
+			name = strings.TrimSpace(name + " (FS (FS FZ)) " + strings.Join(cur, " "))
 		}
 	}
 	var as []string
